@@ -39,7 +39,7 @@ QUERIES = ["root", "//*", "root/*", "//r1", "/root//r2", "//*/r3", "root//*[\"${
 def plan(tier):
     if tier == "thorough":
         return {"cases": 4000, "timeout": 400, "wall_budget": 1500, "recheck": 6, "nproc": 8}
-    return {"cases": 90, "timeout": 300, "wall_budget": 60, "recheck": 3, "nproc": 8}
+    return {"cases": 120, "timeout": 300, "wall_budget": 90, "recheck": 3, "nproc": 8}
 
 def _memo_shape(rng):
     """Projects built around the in-memory memo: leaves that consume a variable, chains of
